@@ -554,7 +554,7 @@ REG.syntactic_check("own#template_cache_used_only_by_cached_template", P, own_te
 ASSUMES = ["A-PY", "A-INST", "A-DJ"]
 NOT_COVERED = [
     "django.template.Template.__init__ is ASSUMED to record what it was compiled from (source, class, engine) and rendering is ASSUMED to depend on nothing else given the same Context - this is what turns `compiled from the requested key` into `output equals compiling afresh`",
-    "Component._get_template (the caller in component.py) is not under contract: that it passes the component's template string unchanged is read, not proved",
+    "Component._get_template is under contract; its user hooks (get_template_name / get_template / get_template_string) and Django's template loader are stubs (arbitrary results)",
     "a template cache object replaced or mutated by user code through django_components.cache.template_cache is outside the contract (precondition: the cache is well-formed and holds only entries filed by cached_template)",
 ]
 
@@ -690,3 +690,107 @@ def _lru_battery(model, ob):
 
 for _m in ("__init__", "get", "set", "has", "clear", "_remove", "_add_to_front"):
     REG.replays[f"{MOD}:LRUCache.{_m}"] = _lru_battery
+
+
+# =============================================================================================== Component._get_template
+# The template of a component comes from exactly ONE source: get_template_name() (loaded by Django), get_template() /
+# get_template_string() (a string -> cached_template of exactly that string; a Template object -> itself), or the class's
+# `template` string (-> cached_template of exactly that string).  Two sources at once, or none, is ImproperlyConfigured.
+COMPMOD = "django_components.component"
+COMPOBJ = Obj("ComponentInstance")
+from pyvc.contracts import Any_  # noqa: E402
+from pyvc.types import TAny  # noqa: E402
+
+PVS = TAny.sort()
+
+
+def cls_template(s):
+    """self.template (the class's template string, None when the class has none)"""
+    return ops.uf("component_template_string", COMPOBJ.sort(), OSTR.sort())(s)
+
+
+def hook_template_name(s):
+    return ops.uf("component_get_template_name_result", COMPOBJ.sort(), OSTR.sort())(s)
+
+
+def hook_template_body(s):
+    """result of get_template_string / get_template: None, a str, or a Template object"""
+    return ops.uf("component_get_template_result", COMPOBJ.sort(), PVS)(s)
+
+
+def loaded_template(name):
+    return ops.uf("django_get_template_template", S_, VALT.sort())(name)
+
+
+def obj_template(v):
+    """the Template object a non-str hook result is"""
+    return ops.uf("template_object_of_value", PVS, VALT.sort())(v)
+
+
+REG.stub(("getattr", "ComponentInstance", "template"), lambda run, obj, node: Val(OSTR, cls_template(obj.t)))
+REG.stub(("getattr", "ComponentInstance", "template_file"), lambda run, obj, node: Val(OSTR, ops.uf("component_template_file", COMPOBJ.sort(), OSTR.sort())(obj.t)))
+REG.stub(("getattr", "ComponentInstance", "name"), lambda run, obj, node: Val(TStr, ops.uf("component_name", COMPOBJ.sort(), S_)(obj.t)))
+REG.stub(("getattr", "ComponentInstance", "__class__"), lambda run, obj, node: Val(TCLS, ops.uf("component_class_as_importable", COMPOBJ.sort(), TCLS.sort())(obj.t)))
+REG.stub(("method", "ComponentInstance", "get_template_name"), lambda run, obj, args, kwargs, node: Val(OSTR, hook_template_name(obj.t)))
+REG.stub("django.template.Origin", lambda run, args, kwargs, node: Val(TOpt(ANYOBJ), TOpt(ANYOBJ).some(z3.FreshConst(ANYOBJ.sort(), "origin"))))
+REG.stub("django.template.base.Origin", lambda run, args, kwargs, node: Val(TOpt(ANYOBJ), TOpt(ANYOBJ).some(z3.FreshConst(ANYOBJ.sort(), "origin"))))
+REG.stub(("coerce", "PyVal", "T"), lambda run, v, ty: Val(VALT, obj_template(v.t)))
+
+
+def _template_getter(run, args, kwargs, node):
+    s = run.call_frame.lookup("self")
+    return Val(TAny, hook_template_body(s.t))
+
+
+def _dyn_getattr_hook(run, args, kwargs, node):
+    """getattr(self, "get_template_string", self.get_template): one of the two user hooks (which one does not matter here)"""
+    return Conc(("obj_kind", "template_getter"))
+
+
+def _django_get_template(run, args, kwargs, node):
+    nm = run.coerce(args[0], TStr).t
+    return Conc(("obj_kind", "backend_template", Val(VALT, loaded_template(nm))))
+
+
+REG.stub("django.template.loader.get_template", _django_get_template)
+REG.stub(("getattr", "conc:obj_kind:backend_template", "template"), lambda run, obj, node: obj.obj[2])
+
+
+def _sources(c):
+    s = c.old("self").t
+    a = z3.Not(OSTR.is_none(cls_template(s)))
+    b = z3.Not(OSTR.is_none(hook_template_name(s)))
+    d = z3.Not(PVS.is_NoneV(hook_template_body(s)))
+    return a, b, d
+
+
+def _gt_conflict(c):
+    a, b, d = _sources(c)
+    return z3.Or(z3.And(a, b), z3.And(a, d), z3.And(b, d), z3.And(z3.Not(a), z3.Not(b), z3.Not(d)))
+
+
+def _gt_post(c):
+    s = c.old("self").t
+    a, b, d = _sources(c)
+    body = hook_template_body(s)
+    res = c["result"].t
+    tpl_global = c.run.globals["Template"].t
+    from_string = lambda txt: tpl_key(res) == key_term(tpl_global, txt, OENG.none())
+    return z3.And(
+        z3.Implies(b, res == loaded_template(OSTR.get(hook_template_name(s)))),
+        z3.Implies(z3.And(d, z3.Or(PVS.is_StrV(body), PVS.is_SafeV(body))), from_string(z3.If(PVS.is_StrV(body), PVS.s(body), PVS.ss(body)))),
+        z3.Implies(z3.And(d, z3.Not(z3.Or(PVS.is_StrV(body), PVS.is_SafeV(body)))), res == obj_template(body)),
+        z3.Implies(a, from_string(OSTR.get(cls_template(s)))))
+
+
+REG.contract(
+    f"{COMPMOD}:Component._get_template", prop=P, types={"context": ANYOBJ, "component_id": Str}, result=VALT, self_type=COMPOBJ, entry=_entry_ghost,
+    globals=dict(TC_GLOBALS, Template=TCLS), calls={"getattr": _dyn_getattr_hook, "template_getter": _template_getter},
+    locals={"template_body": Any_},
+    requires=[_existing_cache_wf, _entries_compiled_from_their_key],
+    modifies=["template_cache", f"{LRU}.maxsize", f"{LRU}.cache", f"{LRU}.head", f"{LRU}.tail", f"{NODE}.next", f"{NODE}.prev", f"{NODE}.key", f"{NODE}.value"],
+    raises={"ImproperlyConfigured": _gt_conflict},
+    ensures={"template_comes_from_exactly_one_source_unchanged": _gt_post,
+             "accepted_only_with_exactly_one_source": lambda c: z3.Not(_gt_conflict(c)),
+             "cache_stays_well_formed": lambda c: z3.And(_existing_cache_wf(c), _entries_compiled_from_their_key(c))},
+)
